@@ -124,22 +124,29 @@ class InterleavedSampler:
             assert config.batch_size is None or 0 < config.batch_size
 
         # infer full start checkpoint from one of epoch/update/sample
+        # (samples/updates per epoch have to match the geometry of _training_loop)
+        if drop_last:
+            samples_per_epoch = len(main_sampler) // (drop_last_batch_size or batch_size)
+            samples_per_epoch *= drop_last_batch_size or batch_size
+        else:
+            samples_per_epoch = len(main_sampler)
+        updates_per_epoch = (samples_per_epoch + batch_size - 1) // batch_size
         if start_epoch is not None:
             assert isinstance(start_epoch, int) and start_update is None and start_sample is None
-            start_update = len(main_sampler) // batch_size * start_epoch
-            start_sample = start_update * batch_size
+            start_update = updates_per_epoch * start_epoch
+            start_sample = samples_per_epoch * start_epoch
         elif start_update is not None:
             assert start_epoch is None and isinstance(start_update, int) and start_sample is None
-            start_epoch = int(start_update / (len(main_sampler) // batch_size))
+            start_epoch = start_update // updates_per_epoch
             start_sample = start_update * batch_size
-            if start_update % (len(main_sampler) // batch_size) != 0 or not drop_last:
+            if start_update % updates_per_epoch != 0 or not drop_last:
                 raise NotImplementedError("defining start_update would require to skip forward in the sampler")
         elif start_sample is not None:
             assert start_epoch is None and start_update is None and isinstance(start_sample, int)
             assert start_sample % batch_size == 0
             start_update = start_sample // batch_size
-            start_epoch = int(start_update / (len(main_sampler) // batch_size))
-            if start_update % (len(main_sampler) // batch_size) != 0 or not drop_last:
+            start_epoch = start_update // updates_per_epoch
+            if start_update % updates_per_epoch != 0 or not drop_last:
                 raise NotImplementedError("defining start_update would require to skip forward in the sampler")
         else:
             start_epoch = start_update = start_sample = 0
